@@ -183,7 +183,7 @@ func init() {
 				} else if c.WantSample() && idx%4001 == 0 {
 					c.Sample(map[string]interface{}{"item": cs.Item, "encoding": cs.Encoding, "family": cs.Family, "input": fmt.Sprintf("%q", cs.Input)})
 				}
-				return idx%256 != 0 || !c.TimeUp()
+				return !c.TimeUpEvery(16)
 			}
 			const S = "\x01SLOT\x01"
 			for _, it := range c18Items() {
